@@ -565,7 +565,8 @@ def placeable_workplaces(sim, upd, alloc, ti):
         if ti not in wp["targets"] or ti in wp.get("notask", ()):
             continue
         w_id = S.wpid(k)
-        there = (set(upd["wps"][w_id]) | set(alloc["wps"][w_id])) - done
+        # who is there is taken from the components' own placement (what C13 ties the workplace's list to)
+        there = set(c for c in sizes if upd["comps"][c][1] == w_id or alloc["comps"][c][1] == w_id) - done
         room = wp["cap"] - sum(sizes[c] for c in there)
         if not room >= size - 1e-9:
             continue
